@@ -75,6 +75,9 @@ def run(P, rep, tier):
 
     # the manifest sidecar of a committed container is only replaced after a successful commit
     rep.attempt(c11.r2_manifest_after_commit, P, rep, ctx, rule="C02.R6")
+    from . import c03
+
+    rep.attempt(c03.r_delete_latest, P, rep, ctx, "C02.R2")
     if tier == "thorough":
         rep.attempt(r1_sinks, P, rep, ctx, whole_package=True)
     rep.floor("C02.R1", 9, "file-system sinks in ih5/")
